@@ -3,7 +3,7 @@ import json
 import os
 import subprocess
 
-from .report import VERIF, REPO, VENV_PY, write_replay, FAILED, UNDECIDED, Obligation
+from .report import VERIF, REPO, VENV_PY, write_replay, FAILED, UNDECIDED, DISCHARGED, Obligation
 
 SEARCH = int(os.environ.get("PYVC_REPLAY_SEARCH", "300"))
 
@@ -99,7 +99,48 @@ def search_witnesses(rep, seed=0):
             ob.replay = dict(path=path, confirmed=True, signature=oid)
 
 
-WITNESS_SEARCH = int(os.environ.get("PYVC_WITNESS_SEARCH", "40"))
+def run_bounded(rep, contract_mod, hname, meta, seed=0):
+    """a harness marked bounded=N is not executed symbolically at all: it is run natively on N random inputs drawn from
+    the declared ranges - a bounded stand-in (label B), never counted as proved"""
+    import time
+    n = int(meta.get("bounded") or 50)
+    if rep.tier == "thorough":
+        n *= int(meta.get("thorough_factor", 10))
+    clause = meta.get("clause", hname)
+    payload = dict(kind="pyvc-harness", contract=contract_mod, harness=hname, obligation_name="**", inputs={}, seed=seed,
+                   obligation_text="every obligation of the harness on random inputs", solver_backend="native-sampling",
+                   how_to_run="cd /verif && ./check %s --replay <this file>" % rep.pid)
+    oid0 = "%s/sampled" % hname
+    path = write_replay(rep.pid, oid0 + "@run", payload)
+    t0 = time.time()
+    rc, res = native(path, search=n, timeout=1800)
+    dt = time.time() - t0
+    os.remove(path)
+    if rc == 1 and res.get("status") == "fails":
+        found = res.get("obligation") or "sampled"
+        oid = "%s/%s" % (hname, found)
+        payload.update(confirmed=True, native_result=res, inputs=res.get("inputs", {}), seed=res.get("seed", seed),
+                       obligation_name=found if found != "no-unexpected-exception" else "**", found_by=res.get("how"))
+        path = write_replay(rep.pid, oid, payload)
+        ob = Obligation(oid, clause, "obligation %s of bounded harness %s" % (found, hname), FAILED, "native-sampling", dt,
+                        label="B", detail=json.dumps(res, default=str)[:1200])
+        ob.replay = dict(path=path, confirmed=True, signature=oid)
+        ob.harness = None
+        rep.add(ob)
+        return
+    if rc not in (0, 1) or res.get("status") in ("crash", "timeout"):
+        rep.engine_error("bounded harness %s could not be run natively: %s" % (hname, json.dumps(res, default=str)[:400]))
+        return
+    ev = int(res.get("evaluated", 0))
+    if ev < max(3, n // 10):
+        rep.engine_error("vacuity guard: bounded harness %s evaluated its obligations on only %d of %d random inputs" % (hname, ev, n))
+        return
+    rep.add(Obligation(oid0, clause, "no obligation of the harness fails on %d random inputs (of %d drawn; seed %d)" % (ev, n + 1, seed),
+                       DISCHARGED, "native-sampling", dt, label="B", vcs=ev))
+    rep.bounded.append("%s: native sampling, %d random inputs from the declared ranges" % (hname, ev))
+
+
+WITNESS_SEARCH = int(os.environ.get("PYVC_WITNESS_SEARCH", "150"))
 
 
 def _signature(pid, ob, res):
